@@ -1125,13 +1125,23 @@ impl ProtocolState {
         self.high_priority_operation_queue.iter().any(|id| self.is_connect_packet(*id))
     }
 
+    // While waiting for the CONNACK, the CONNECT is the only packet the client sends.  It has
+    // been flushed once it is no longer queued, no longer being encoded, and the write
+    // completion covering its final bytes has been received.
+    fn is_connect_flushed(&self) -> bool {
+        !self.is_connect_in_queue() &&
+            self.current_operation.is_none() &&
+            !self.pending_write_completion &&
+            self.pending_write_completion_operations.is_empty()
+    }
+
     fn handle_network_event_incoming_data(&mut self, context: &mut NetworkEventContext, data: &[u8]) -> GneissResult<()> {
         if self.state == ProtocolStateType::Disconnected || self.state == ProtocolStateType::Halted {
             error!("[{} ms] handle_network_event_incoming_data - called in invalid state", self.elapsed_time_ms);
             return Err(GneissError::new_internal_state_error("incoming network data while in an invalid state"));
         }
 
-        if self.state == ProtocolStateType::PendingConnack && self.is_connect_in_queue() {
+        if self.state == ProtocolStateType::PendingConnack && !self.is_connect_flushed() {
             error!("[{} ms] handle_network_event_incoming_data - data received before CONNECT sent", self.elapsed_time_ms);
             self.change_state(ProtocolStateType::Halted);
             return Err(GneissError::new_protocol_error("data received before CONNECT sent"));
